@@ -36,7 +36,7 @@ def _case(draw, tier):
     kw = {}
     if name.startswith("Parallel"):
         kw["batch_sizes"] = [1]
-    case = draw(gen.pool_case([name], vary_model=True, **kw))
+    case = draw(gen.pool_case([name], vary_model=True, use_alt=True, **kw))
     return case
 
 
